@@ -278,11 +278,16 @@ def run(rep, ctx):
     rep.coverage['samples'] = [{'text': repr(b.decode('utf-8')), 'offsets': offs[:8]} for b, offs in texts[:: max(1, len(texts) // 4)][:4]]
     rep.assumptions = ['the matches of the regex `\\n` are the positions of the byte 0x0A (in UTF-8 that byte occurs only as LF)',
                        'lines_lt_i32: the file has fewer than 2^31 lines (i32 counter); beyond that the model panics as the debug build does',
-                       'detector-level clause (analyze_for_* turns each reported location into get_line_number(start)) is decided in the second part of props/C02.v']
+                       'detector-level clause: props/C02_detectors.v (analyze_lines, reported_is_anchor_line) + line sets of all 30 detectors on programs and their re-layouts (CRLF, blank lines, no final newline, multi-byte prefix)']
+    from checks import lines_common
+    found = lines_common.run_part(rep, ctx) or found
     common.finish_proof_status(rep, ctx, found)
 
 
 def replay(obj):
+    if obj.get('detector_level'):
+        from checks import det_check
+        return det_check.replay('C05', obj)
     ctx = common.Ctx()
     ctx.tier = 'quick'
     ctx.seed = 1
